@@ -97,14 +97,10 @@ theorem previous_adjacent (k : PeriodKind) (x y : Date) (h : x.valid = true) (p 
     y.valid = true ∧ dayNumber q.until_ + 1 = dayNumber p.since :=
   KlogV.previous_adjacent k x y h p q hy hp hq
 
-/-- The key that identifies the period of a date, per kind. -/
-def bucketKey (k : PeriodKind) (x : Date) : Int × Nat × Nat :=
-  match k with
-  | .day => (x.y, x.m, x.d)
-  | .week => (x.isoWeek.1, x.isoWeek.2, 0)
-  | .month => (x.y, x.m, 0)
-  | .quarter => (x.y, x.quarter, 0)
-  | .year => (x.y, 0, 0)
+/-- The key that identifies the period of a date, per kind (definition: `KlogV.bucketKey` in
+KlogV/Lemmas/Calendar3.lean — day ↦ (y, m, d), week ↦ (isoWeek.1, isoWeek.2, 0), month ↦ (y, m, 0),
+quarter ↦ (y, quarter, 0), year ↦ (y, 0, 0)). -/
+abbrev bucketKey := KlogV.bucketKey
 
 /-- Two dates fall into the same report bucket (equal hash) exactly when they have the same
 period key — including the week-year `-1` of 0000-01-01/02, which wraps around in `uint32`. -/
